@@ -155,6 +155,10 @@ type env struct {
 	unroutable bool   // pointer / float keys on a group locker: remap cannot route them, every lock call panics before it locks
 	alias      []int  // key ids that are EQUAL keys in Go (0.0 and -0.0): exclusion is judged per equality class
 	ptrs       []*obj // pointer keys (kind ptr), for `mutate`
+	// pure routing (route.go): the key values, the harness' own ReMap with the locker's shard count, xxhash or modulo routing
+	pureVals []interface{}
+	rm       *remap.ReMap
+	xhash    bool
 }
 
 // obj is the pointee of the pointer keys: the key is the pointer's identity, not the contents
@@ -180,6 +184,9 @@ func parseInit(f []string) (*env, bool) {
 	}
 	if e.hash == "ptr" || e.hash == "flt" {
 		return parseInitOdd(e, nums, single)
+	}
+	if e.hash == "bsx" || e.hash == "col" {
+		return parseInitRoute(e, nums)
 	}
 	special := e.hash == "neg" || e.hash == "n64" || e.hash == "hit"
 	if special {
@@ -218,6 +225,9 @@ func parseInit(f []string) (*env, bool) {
 				return nil, false // the script must state the shard remap routes this key to
 			}
 		}
+		if !single {
+			e.pureVals, e.rm = anyVals, remap.NewReMap(opt)
+		}
 		switch {
 		case e.kind == "kl":
 			e.lk = &anyLocker{l: keylock.NewKeyLocker(), vals: anyVals}
@@ -237,6 +247,16 @@ func parseInit(f []string) (*env, bool) {
 	ints, strs, ok := keyValues(e.hash, uint64(e.prime), single, e.shards)
 	if !ok {
 		return nil, false
+	}
+	if !single {
+		e.rm, e.xhash = remap.NewReMap(opt), e.hash == "xh"
+		for i := 0; i < e.K; i++ {
+			if e.hash == "str" {
+				e.pureVals = append(e.pureVals, strs[i])
+			} else {
+				e.pureVals = append(e.pureVals, ints[i])
+			}
+		}
 	}
 	switch {
 	case e.kind == "kl" || e.kind == "klg":
@@ -368,6 +388,7 @@ type runner struct {
 	disciplined bool
 	// unroutableSeen: the last call panicked in remap before locking (key kinds ptr / flt on group lockers)
 	unroutableSeen bool
+	others         []*remap.ReMap // containers created mid-script (`remap p`), kept alive
 	hits           []corr.Hit
 	hitSeen     map[string]bool
 }
@@ -474,6 +495,7 @@ func (r *runner) status() string {
 
 // monitors: the property restated on P-observables (which calls have returned), independent of the Lean model
 func (r *runner) monitors(op string) {
+	r.routeMonitor(op)
 	kind := r.e.kind
 	// (1) exclusion
 	cls := func(k int) int {
@@ -1027,6 +1049,12 @@ func runScriptStream(c corr.Case, emit func(string)) (res corr.Result) {
 					ks = append(ks, k)
 				}
 				out = r.doCall(t, f[0] == "unlockrange", f[2] == "w", ks, true)
+				r.monitors(line)
+			}
+		case len(f) == 2 && f[0] == "remap":
+			if p, ok := parseNat(f[1]); ok && p >= 1 && p <= 100 {
+				r.otherContainers(p)
+				out = "ok"
 				r.monitors(line)
 			}
 		case len(f) == 2 && f[0] == "mutate":
